@@ -53,7 +53,12 @@ Definition name_of (l : level) : lname :=
 (* ---------- the verifier structure ---------- *)
 (* what a (non-nil) policy document answers for the request at hand
    (GetApplicableTrustPolicy / GetGlobalTrustPolicy + GetVerificationLevel) *)
-Inductive sel := SelNone | SelLevel (l : level).
+Inductive sel :=
+| SelNone
+| SelBadLevel     (* a statement applies but GetVerificationLevel fails on it (its error is ignored:
+                     the level is a nil pointer). Impossible for a document that is still as it was
+                     validated by the constructor; reachable when the caller edits the document later *)
+| SelLevel (l : level).
 
 Inductive cap := CapTI | CapRev | CapOther.
 
@@ -297,6 +302,7 @@ Definition verify_oci (v : verifier) (sc : scenario) : obs :=
   match v_oci v with
   | None => ORet false None [] (Some XNil)                  (* guard (fix 87f7f59 kept it in Verify) *)
   | Some SelNone => ORet false None [] (Some XNoPolicy)
+  | Some SelBadLevel => OPanic        (* verifyIntegrity: outcome.VerificationLevel.Enforcement on nil *)
   | Some (SelLevel l) =>
       if is_skip l then ORet false None [Some skip_out] None
       else match process_signature l (v_pm v) sc with
@@ -315,6 +321,7 @@ Definition verify_blob (v : verifier) (sc : scenario) : obs :=
   match v_blob v with
   | None => ORet false None [] (Some XNil)
   | Some SelNone => ORet false None [] (Some XNoPolicy)
+  | Some SelBadLevel => OPanic
   | Some (SelLevel l) =>
       if is_skip l then ORet false None [Some skip_out] None
       else match process_signature l (v_pm v) sc with
@@ -333,6 +340,7 @@ Definition skip_verify (v : verifier) : obs :=
   match v_oci v with
   | None => ORet false None [] (Some XNil)                  (* fix 87f7f59 *)
   | Some SelNone => ORet false None [] (Some XNoPolicy)
+  | Some SelBadLevel => ORet false None [] None             (* (false, nil, nil) *)
   | Some (SelLevel l) =>
       if is_skip l then ORet true (Some NSkip) [] None
       else ORet false (Some (name_of l)) [] None
@@ -563,7 +571,11 @@ Definition impl_wf (impl : vimpl) : bool :=
   | _ => true
   end.
 
+(* the documents are as the constructor validated them *)
+Definition sel_wf (d : option sel) : bool := match d with Some SelBadLevel => false | _ => true end.
+
 Definition wf (i : input) : bool :=
+  sel_wf (v_oci (i_v i)) && sel_wf (v_blob (i_v i)) &&
   match v_pm (i_v i) with PMPlugin MetaNil => false | _ => true end
   && sc_wf (i_sc i) && forallb item_wf (n_items (i_n i)) && impl_wf (i_impl i).
 
